@@ -69,6 +69,15 @@ CHECKS = {
             'Chunks are observed via logfile_read; pieces are written within a few loop turns, far inside the 0.3 s timeouts. '
             'Comparison stops after the first EOF.',
             'DESIGN.md 3/C14'),
+    'C15': ('E6 in-process user terminal (outer pty) + raw-mode recording child',
+            'Hypothesis-generated interact() sessions (typed streams over all byte values with the escape character at '
+            'generated positions, filters, child output scripts, pending buffer, select|poll) run in a helper thread '
+            'against an outer pty the harness plays the user on; byte-exact two-way oracle, return, terminal-mode restoration',
+            'What the child recorded must be exactly the (filtered) typed stream before its first escape character; what '
+            'the user terminal received must be the pending buffer plus the (filtered) child output; interact() must '
+            'return and restore a distinctive termios mode.',
+            'Filters are stateless per byte; keystrokes are typed only after the terminal was seen in raw mode.',
+            'DESIGN.md 3/C15'),
     'C07': ('real descriptors with generated read sizes + scripted children (E3)',
             'Hypothesis-generated text x codec x error policy x cut points pushed through real pipe/socketpair/'
             'SocketSpawn/pty-child/Popen-child/asyncio transports; round trip against one-shot incremental decoding; '
@@ -217,6 +226,9 @@ def main():
              'serves_properties': ['C04', 'C05', 'C06', 'C07', 'C08', 'C09', 'C10', 'C11', 'C12', 'C13'],
              'kind_free_text': 'real peers: scripted pty/Popen children recording what they receive, pre-filled '
                                'pipes/socketpairs, recording log files'},
+            {'name': 'E6', 'path': 'vf/props/c15.py', 'serves_properties': ['C11', 'C15'],
+             'kind_free_text': 'in-process user terminal: STDIN_FILENO/STDOUT_FILENO pointed at an os.openpty() slave, '
+                               'sys.stdout swapped, interact() in a helper thread'},
             {'name': 'E4', 'path': 'vf/engines/screenmodel.py', 'serves_properties': ['C19'],
              'kind_free_text': 'reference grid for pexpect.screen written from the docstrings'},
         ],
